@@ -52,16 +52,16 @@ type DeriveOb struct {
 }
 
 type deriver struct {
-	prog   *load.Program
-	m      *interp.Machine
-	model  *Model
-	events []Event
-	vars   map[string]*varRec // by opaque types.Var ID
-	scopes map[*interp.Struct]int
-	imports map[string]*interp.Struct // registry model: path -> Package
+	prog        *load.Program
+	m           *interp.Machine
+	model       *Model
+	events      []Event
+	vars        map[string]*varRec // by opaque types.Var ID
+	scopes      map[*interp.Struct]int
+	imports     map[string]*interp.Struct // registry model: path -> Package
 	importOrder []string
-	nerr   int
-	errEvent map[int]int // error number -> index of the event that produced it
+	nerr        int
+	errEvent    map[int]int // error number -> index of the event that produced it
 }
 
 type varRec struct {
@@ -322,10 +322,6 @@ func (d *deriver) run(formatter string) (*Derived, error) {
 	if err != nil {
 		return und("%v", err)
 	}
-	tPackage, err := d.namedStruct(load.PkgRegistry, "Package")
-	if err != nil {
-		return und("%v", err)
-	}
 	tVar, err := d.namedStruct(load.PkgRegistry, "Var")
 	if err != nil {
 		return und("%v", err)
@@ -370,9 +366,23 @@ func (d *deriver) run(formatter string) (*Derived, error) {
 			return d.errVal("template execution"), nil
 		},
 	}}
-	tmplStruct, err := d.fillStruct(tTemplate, "template", map[string]interp.Value{"tmpl": ttmpl})
+	// the field that holds the parsed template is found by its type, not by its name
+	tmplStruct, err := d.fillStruct(tTemplate, "template", nil)
 	if err != nil {
 		return und("%v", err)
+	}
+	{
+		st := tTemplate.Underlying().(*types.Struct)
+		n := 0
+		for i := 0; i < st.NumFields(); i++ {
+			if types.TypeString(st.Field(i).Type(), nil) == "*text/template.Template" {
+				tmplStruct.Fields[st.Field(i).Name()] = ttmpl
+				n++
+			}
+		}
+		if n != 1 {
+			return und("generator anchor lost: template.Template has %d fields of type *text/template.Template, want 1", n)
+		}
 	}
 	// the Mocker is the one moq.New builds from the configuration (its current source is interpreted;
 	// loading the package and parsing the template are replaced by the abstract registry and template)
@@ -382,26 +392,6 @@ func (d *deriver) run(formatter string) (*Derived, error) {
 	}
 	d.m.Ext[load.PkgTemplate+".New"] = func(m *interp.Machine, pos token.Pos, recv interp.Value, args []interp.Value) (interp.Value, error) {
 		return interp.Tuple{tmplStruct, interp.NilV{}}, nil
-	}
-	newFn := prog.LookupFunc(load.PkgMoq, "New")
-	if newFn == nil {
-		return und("generator anchor lost: New not found in %s", load.PkgMoq)
-	}
-	built, nerr := d.m.CallFunc(token.NoPos, newFn, nil, []interp.Value{cfg})
-	if nerr != nil {
-		if u, ok := nerr.(*interp.ErrUndecided); ok {
-			return nil, &Undecided{GoPos: u.Pos, Msg: "abstract interpretation of moq.New: " + u.Msg}
-		}
-		return nil, nerr
-	}
-	var mocker *interp.Struct
-	if t, ok := built.(interp.Tuple); ok && len(t) == 2 {
-		if p, ok := t[0].(*interp.Ptr); ok {
-			mocker = p.Elem
-		}
-	}
-	if mocker == nil {
-		return und("moq.New does not return a *Mocker on the abstract configuration (got %s)", interp.Show(built))
 	}
 	// ---- registry models
 	regPath := load.PkgRegistry
@@ -461,7 +451,11 @@ func (d *deriver) run(formatter string) (*Derived, error) {
 		if alias != "" {
 			a = interp.Tok(alias)
 		}
-		s, _ := d.fillStruct(tPackage, "pkg:"+pkg.ID, map[string]interp.Value{"pkg": pkg, "Alias": a})
+		// through the exported constructor, so that no unexported field name is assumed
+		s := NewPackageValue(d.prog, d.m, pkg, a)
+		if s != nil {
+			s.ID = "pkg:" + pkg.ID
+		}
 		return s
 	}
 	addImport := func(pkg *interp.Opaque, how string) interp.Value {
@@ -484,6 +478,9 @@ func (d *deriver) run(formatter string) (*Derived, error) {
 			alias = model.SyncQual
 		}
 		s := mkPackage(pkg, alias)
+		if s == nil {
+			return &interp.Unknown{Why: "registry.NewPackage cannot be interpreted"}
+		}
 		d.imports[path] = s
 		d.importOrder = append(d.importOrder, path)
 		return &interp.Ptr{Elem: s}
@@ -651,11 +648,33 @@ func (d *deriver) run(formatter string) (*Derived, error) {
 	// ---- name pairs
 	np := &interp.List{}
 	for _, mi := range model.Mocks {
-		if mi.Aliased {
+		if mi.Arg != nil {
+			np.Elems = append(np.Elems, mi.Arg)
+		} else if mi.Aliased {
 			np.Elems = append(np.Elems, interp.Concat(interp.Concat(interp.Tok(mi.IfaceName), interp.Lit(":")), interp.Tok(mi.MockName)))
 		} else {
 			np.Elems = append(np.Elems, interp.Tok(mi.IfaceName))
 		}
+	}
+	newFn := prog.LookupFunc(load.PkgMoq, "New")
+	if newFn == nil {
+		return und("generator anchor lost: New not found in %s", load.PkgMoq)
+	}
+	built, nerr := d.m.CallFunc(token.NoPos, newFn, nil, []interp.Value{cfg})
+	if nerr != nil {
+		if u, ok := nerr.(*interp.ErrUndecided); ok {
+			return nil, &Undecided{GoPos: u.Pos, Msg: "abstract interpretation of moq.New: " + u.Msg}
+		}
+		return nil, nerr
+	}
+	var mocker *interp.Struct
+	if t, ok := built.(interp.Tuple); ok && len(t) == 2 {
+		if p, ok := t[0].(*interp.Ptr); ok {
+			mocker = p.Elem
+		}
+	}
+	if mocker == nil {
+		return und("moq.New does not return a *Mocker on the abstract configuration (got %s)", interp.Show(built))
 	}
 	args := append([]interp.Value{writer}, np.Elems...)
 	ret, ierr := d.m.CallFunc(token.NoPos, mockFn, &interp.Ptr{Elem: mocker}, args)
